@@ -1,235 +1,346 @@
 (* Facts about the model of create_initial_allocation (property C03). *)
-From FrameModel Require Import Num.QcTac Geometry.Rect Geometry.RectFacts Alloc.Alloc Alloc.Initial.
+From FrameModel Require Import Num.QcTac Geometry.Rect Geometry.RectFacts Alloc.Alloc Alloc.Initial Alloc.InitialGeom.
 Open Scope list_scope.
 Open Scope Qc_scope.
 
 (* ------------------------------------------------------------------ *)
-(* sums                                                               *)
+(* Netlist.create_squares                                               *)
 (* ------------------------------------------------------------------ *)
-Lemma Qcsum_nonneg l : Forall (fun x => 0 <= x) l -> 0 <= Qcsum l.
-Proof. induction 1; cbn [Qcsum]; qlra. Qed.
+Section Facts.
+  Variable sqrt_o : Qc -> Qc.
+  Definition sqrt_contract : Prop := forall a, 0 <= a -> 0 <= sqrt_o a /\ sqrt_o a * sqrt_o a = a.
 
-Lemma Qcsum_map_nonneg {A} (f : A -> Qc) l : (forall x, In x l -> 0 <= f x) -> 0 <= Qcsum (map f l).
-Proof.
-  intro H. apply Qcsum_nonneg. apply Forall_forall. intros y Hy.
-  apply in_map_iff in Hy. destruct Hy as (x & <- & Hx). auto.
-Qed.
+  (* the rectangles a module has when the ratios are computed: its own, or the square *)
+  Definition shape (m : nmod) : list Rect :=
+    match mrects m with
+    | [] => match create_square sqrt_o m with Some r => [r] | None => [] end
+    | l => l
+    end.
+  Definition squared (m : nmod) : nmod := set_rects m (shape m).
 
-Lemma Qcsum_map_ext {A} (f g : A -> Qc) l : (forall x, In x l -> f x = g x) -> Qcsum (map f l) = Qcsum (map g l).
-Proof.
-  induction l as [|a l IH]; intro H; cbn [map Qcsum]; [reflexivity|].
-  rewrite (H a (or_introl eq_refl)), IH; [reflexivity|]. intros x Hx. apply H. right. exact Hx.
-Qed.
+  Lemma create_squares_spec ms ms' : create_squares sqrt_o ms = Some ms' -> ms' = map squared ms.
+  Proof.
+    revert ms'. induction ms as [|m ms IH]; cbn [create_squares map]; intros ms' H.
+    - inversion H. reflexivity.
+    - destruct (with_square sqrt_o m) as [m'|] eqn:E; [|discriminate].
+      destruct (create_squares sqrt_o ms) as [l|]; [|discriminate]. inversion H; subst.
+      rewrite (IH l eq_refl). f_equal.
+      unfold with_square in E. unfold squared, shape.
+      destruct (mrects m) as [|r0 rs] eqn:Er.
+      + destruct (create_square sqrt_o m); inversion E. reflexivity.
+      + inversion E. subst m'. unfold set_rects. rewrite <- Er. destruct m; reflexivity.
+  Qed.
 
-Lemma Qcsum_map_zero {A} (f : A -> Qc) l : (forall x, In x l -> f x = 0) -> Qcsum (map f l) = 0.
-Proof.
-  induction l as [|a l IH]; intro H; cbn [map Qcsum]; [reflexivity|].
-  rewrite (H a (or_introl eq_refl)), IH; [ring|]. intros x Hx. apply H. right. exact Hx.
-Qed.
+  (* the square really is a square of the module's area around its centre *)
+  Lemma shape_square m x y : sqrt_contract -> mrects m = [] -> mcenter m = Some (x, y) -> 0 < marea m ->
+    exists s, shape m = [mkRect x y s s false false "_" NOPOLY] /\ 0 < s /\ s * s = marea m.
+  Proof.
+    intros Hc Hr Hm Ha. unfold shape, create_square. rewrite Hr, Hm.
+    destruct (Hc (marea m)) as [S0 S1]; [qlra|].
+    destruct (Qcltb (marea m) 0) eqn:E0; qb2p; [exfalso; qlra|].
+    assert (0 < sqrt_o (marea m)).
+    { destruct (Qceqb (sqrt_o (marea m)) 0) eqn:E; qb2p; [exfalso; rewrite E in S1; qlra|qlra]. }
+    destruct (Qcltb 0 (sqrt_o (marea m))) eqn:E1; qb2p; [|exfalso; qlra].
+    exists (sqrt_o (marea m)). auto.
+  Qed.
 
-Lemma Qcsum_map_scale {A} (f : A -> Qc) (k : Qc) l : Qcsum (map (fun x => f x * k) l) = Qcsum (map f l) * k.
-Proof. induction l as [|a l IH]; cbn [map Qcsum]; [ring|]. rewrite IH. ring. Qed.
+  Lemma create_squares_defined ms : sqrt_contract ->
+    Forall (fun m => mrects m = [] -> (exists p, mcenter m = Some p) /\ 0 < marea m) ms ->
+    create_squares sqrt_o ms = Some (map squared ms).
+  Proof.
+    intros Hc. induction 1 as [|m ms Hm _ IH]; cbn [create_squares map]; [reflexivity|].
+    rewrite IH.
+    assert (E : with_square sqrt_o m = Some (squared m)).
+    { unfold with_square, squared, shape. destruct (mrects m) as [|r0 rs] eqn:Er.
+      - destruct (Hm eq_refl) as [[[x y] Hp] Ha].
+        destruct (shape_square m x y Hc Er Hp Ha) as (s & Hs & _). unfold shape in Hs. rewrite Er in Hs.
+        destruct (create_square sqrt_o m); [reflexivity|discriminate].
+      - unfold set_rects. rewrite <- Er. destruct m; reflexivity. }
+    rewrite E. reflexivity.
+  Qed.
 
-Lemma Qcsum_map_plus {A} (f g : A -> Qc) l :
-  Qcsum (map (fun x => f x + g x) l) = Qcsum (map f l) + Qcsum (map g l).
-Proof. induction l as [|a l IH]; cbn [map Qcsum]; [ring|]. rewrite IH. ring. Qed.
-
-Lemma Qcsum_swap {A B} (f : A -> B -> Qc) la lb :
-  Qcsum (map (fun a => Qcsum (map (fun b => f a b) lb)) la) =
-  Qcsum (map (fun b => Qcsum (map (fun a => f a b) la)) lb).
-Proof.
-  induction la as [|a la IH]; cbn [map Qcsum].
-  - symmetry. apply Qcsum_map_zero. reflexivity.
-  - rewrite IH, <- Qcsum_map_plus. reflexivity.
-Qed.
-
-Lemma Qcsum_pos_in {A} (f : A -> Qc) l x :
-  (forall y, In y l -> 0 <= f y) -> In x l -> 0 < f x -> 0 < Qcsum (map f l).
-Proof.
-  induction l as [|a l IH]; intros Hn Hin Hp; [destruct Hin|]. cbn [map Qcsum].
-  assert (Ha : 0 <= f a) by (apply Hn; left; reflexivity).
-  assert (Hl : 0 <= Qcsum (map f l)) by (apply Qcsum_map_nonneg; intros; apply Hn; right; assumption).
-  destruct Hin as [->|Hin]; [qlra|].
-  assert (0 < Qcsum (map f l)) by (apply IH; auto; intros; apply Hn; right; assumption). qlra.
-Qed.
-
-(* ------------------------------------------------------------------ *)
-(* the area of a cell covered by a list of rectangles                  *)
-(* ------------------------------------------------------------------ *)
-Definition covered (c : Rect) (rs : list Rect) : Qc := Qcsum (map (area_overlap c) rs).
-
-Lemma cov_ratio_eq c rs : cov_ratio c rs = covered c rs / area c.
-Proof.
-  unfold cov_ratio, covered, Qcdiv. apply (Qcsum_map_scale (area_overlap c) (/ area c)).
-Qed.
-
-Lemma covered_nonneg c rs : 0 <= covered c rs.
-Proof. apply Qcsum_map_nonneg. intros. apply ov_nonneg. Qed.
-
-Lemma wf_area_pos r : wf r -> 0 < area r.
-Proof. unfold wf, area. intros [A B]. qnra. Qed.
-
-Lemma ov_self r : wf r -> area_overlap r r = area r.
-Proof.
-  intros [Hw Hh]. unfold area_overlap.
-  assert (Ex : Qcmax (xmin r) (xmin r) = xmin r) by (unfold Qcmax; destruct (Qcleb _ _); reflexivity).
-  assert (Ex' : Qcmin (xmax r) (xmax r) = xmax r) by (unfold Qcmin; destruct (Qcleb _ _); reflexivity).
-  assert (Ey : Qcmax (ymin r) (ymin r) = ymin r) by (unfold Qcmax; destruct (Qcleb _ _); reflexivity).
-  assert (Ey' : Qcmin (ymax r) (ymax r) = ymax r) by (unfold Qcmin; destruct (Qcleb _ _); reflexivity).
-  rewrite Ex, Ex', Ey, Ey'.
-  destruct (Qcleb (xmax r) (xmin r)) eqn:E1; qb2p; [exfalso; runfold; qlra|].
-  destruct (Qcleb (ymax r) (ymin r)) eqn:E2; qb2p; [exfalso; runfold; qlra|].
-  runfold. qlra.
-Qed.
-
-Lemma div_mul_cancel a b : b <> 0 -> a / b * b = a.
-Proof. intro H. field. exact H. Qed.
-
-Lemma pos_neq0 b : 0 < b -> b <> 0.
-Proof. intros H Z. qlra. Qed.
-
-Lemma div_pos_nonneg a b : 0 <= a -> 0 < b -> 0 <= a / b.
-Proof.
-  intros Ha Hb. pose proof (div_mul_cancel a b (pos_neq0 b Hb)) as E.
-  revert E. generalize (a / b). intros q E. qnra.
-Qed.
-
-Lemma div_le_1 a b : a <= b -> 0 < b -> a / b <= 1.
-Proof.
-  intros Ha Hb. pose proof (div_mul_cancel a b (pos_neq0 b Hb)) as E.
-  revert E. generalize (a / b). intros q E. qnra.
-Qed.
-
-Lemma div_pos_iff a b : 0 < b -> (0 < a / b <-> 0 < a).
-Proof.
-  intros Hb. pose proof (div_mul_cancel a b (pos_neq0 b Hb)) as E.
-  revert E. generalize (a / b). intros q E. split; intro H; qnra.
-Qed.
+  Lemma squared_name m : mname (squared m) = mname m. Proof. reflexivity. Qed.
+  Lemma squared_fixed m : mfixed (squared m) = mfixed m. Proof. reflexivity. Qed.
+  Lemma squared_rects m : mrects (squared m) = shape m. Proof. reflexivity. Qed.
+  Lemma shape_rects m : mrects m <> [] -> shape m = mrects m.
+  Proof. unfold shape. destruct (mrects m); [congruence|reflexivity]. Qed.
+End Facts.
 
 (* ------------------------------------------------------------------ *)
-(* pairwise disjoint rectangles cover at most the area of a cell        *)
+(* _detect_fixed_rectangles when every ratio is 0 or 1                  *)
 (* ------------------------------------------------------------------ *)
-(* length of the common part of the intervals [a,b] and [p,q] *)
-Definition olen (a b p q : Qc) : Qc := Qcmax 0 (Qcmin b q - Qcmax a p).
-Definition clamp (a b v : Qc) : Qc := Qcmax a (Qcmin b v).
-Definition bov (x0 x1 y0 y1 : Qc) (s : Rect) : Qc :=
-  olen x0 x1 (xmin s) (xmax s) * olen y0 y1 (ymin s) (ymax s).
+Definition own (c : Rect) (m : nmod) : bool := Qceqb (cov_ratio c (mrects m)) 1.
+Definition owners (fms : list nmod) (c : Rect) : list nmod := filter (own c) fms.
+Definition mark (fms : list nmod) (c : cell) : cell :=
+  mkCell (if is_empty (owners fms (crect c)) then crect c else set_fixed (crect c)) (calloc c) (cdepth c).
+Definition pairs (fms : list nmod) (c : cell) : list (Rect * string) :=
+  map (fun m => (crect (mark fms c), mname m)) (owners fms (crect c)).
 
-Lemma max0_nonpos x : x <= 0 -> Qcmax 0 x = 0.
-Proof. intro H. qmlra. Qed.
-Lemma max0_pos x : 0 < x -> Qcmax 0 x = x.
-Proof. intro H. qmlra. Qed.
+Lemma is_empty_map {A B} (f : A -> B) l : is_empty (map f l) = is_empty l.
+Proof. destruct l; reflexivity. Qed.
 
-Lemma ov_prod r s :
-  area_overlap r s = olen (xmin r) (xmax r) (xmin s) (xmax s) * olen (ymin r) (ymax r) (ymin s) (ymax s).
+Lemma detect_cell_spec feps c fms : 0 < feps -> feps < 1 ->
+  (forall m, In m fms -> cov_ratio c (mrects m) = 0 \/ cov_ratio c (mrects m) = 1) ->
+  detect_cell feps c fms = Some (map mname (owners fms c)).
 Proof.
-  unfold area_overlap, olen.
-  generalize (xmin r) (xmax r) (xmin s) (xmax s) (ymin r) (ymax r) (ymin s) (ymax s).
-  intros a b p q c d u v.
-  generalize (Qcmin b q) (Qcmax a p) (Qcmin d v) (Qcmax c u). intros X1 X0 Y1 Y0.
-  destruct (Qcleb X1 X0) eqn:E1; qb2p.
-  - rewrite (max0_nonpos (X1 - X0)) by qlra. ring.
-  - destruct (Qcleb Y1 Y0) eqn:E2; qb2p.
-    + rewrite (max0_nonpos (Y1 - Y0)) by qlra. ring.
-    + rewrite (max0_pos (X1 - X0)) by qlra. rewrite (max0_pos (Y1 - Y0)) by qlra. reflexivity.
+  intros H0 H1. unfold owners. induction fms as [|m fms IH]; intro Hb; [reflexivity|].
+  cbn [detect_cell filter]. cbv zeta. unfold own at 1.
+  rewrite IH by (intros; apply Hb; right; assumption).
+  destruct (Hb m (or_introl eq_refl)) as [E|E]; rewrite E.
+  - rewrite (proj2 (Qcltb_true 0 feps) H0). cbn [orb].
+    assert (Qcltb (1 - feps) 0 = false) as -> by (qb2p; qlra).
+    assert (Qceqb 0 1 = false) as -> by (qb2p; qlra). reflexivity.
+  - assert (Qcltb 1 feps = false) as -> by (qb2p; qlra).
+    assert (Qcltb (1 - feps) 1 = true) as -> by (qb2p; qlra).
+    assert (Qcltb 1 (1 + feps) = true) as -> by (qb2p; qlra).
+    assert (Qceqb 1 1 = true) as -> by (qb2p; reflexivity). reflexivity.
 Qed.
 
-Lemma olen_nonneg a b p q : 0 <= olen a b p q.
-Proof. unfold olen. generalize (Qcmin b q - Qcmax a p). intro x. qmlra. Qed.
-
-Lemma olen_split a m b p q : a <= m -> m <= b -> olen a b p q = olen a m p q + olen m b p q.
-Proof. intros H1 H2. unfold olen. qmlra. Qed.
-
-Lemma olen_mid a b p q : a <= b -> p <= q -> olen a b p q = clamp a b q - clamp a b p.
-Proof. intros H1 H2. unfold olen, clamp. qmlra. Qed.
-
-Lemma clamp_range a b v : a <= b -> a <= clamp a b v /\ clamp a b v <= b.
-Proof. intro H. unfold clamp. split; qmlra. Qed.
-Lemma clamp_mono a b p q : p <= q -> clamp a b p <= clamp a b q.
-Proof. intro H. unfold clamp. qmlra. Qed.
-
-Lemma olen_sub_zero a b p q u v : a <= b -> p <= q ->
-  olen p q u v = 0 -> olen (clamp a b p) (clamp a b q) u v = 0.
-Proof. intros H1 H2. unfold olen, clamp. intro H. qmlra. Qed.
-
-Definition wwf (r : Rect) : Prop := xmin r <= xmax r /\ ymin r <= ymax r.
-Lemma wf_wwf r : wf r -> wwf r.
-Proof. intros [A B]. unfold wwf. runfold. split; qlra. Qed.
-
-Lemma mul_zero_cases (x y : Qc) : x * y = 0 -> x = 0 \/ y = 0.
+Lemma detect_spec feps cells fms : 0 < feps -> feps < 1 ->
+  (forall c m, In c cells -> In m fms ->
+     cov_ratio (crect c) (mrects m) = 0 \/ cov_ratio (crect c) (mrects m) = 1) ->
+  detect feps cells fms = Some (map (mark fms) cells, flat_map (pairs fms) cells).
 Proof.
-  intro H. destruct (Qceqb x 0) eqn:E; qb2p; [left; exact E|right].
-  assert (y = (x * y) / x) as -> by (field; exact E). rewrite H. field. exact E.
+  intros H0 H1. induction cells as [|c cells IH]; intro Hb; [reflexivity|].
+  cbn [detect map flat_map].
+  rewrite (detect_cell_spec feps (crect c) fms H0 H1) by (intros; apply Hb; [left; reflexivity|assumption]).
+  rewrite IH by (intros; apply Hb; [right|]; assumption).
+  cbv zeta. rewrite is_empty_map, map_map. reflexivity.
 Qed.
 
-Lemma bov_split x0 x1 y0 y1 r s : x0 <= x1 -> y0 <= y1 -> wwf r -> area_overlap r s = 0 ->
-  let a := clamp x0 x1 (xmin r) in let b := clamp x0 x1 (xmax r) in
-  let c := clamp y0 y1 (ymin r) in let d := clamp y0 y1 (ymax r) in
-  bov x0 x1 y0 y1 s = bov x0 a y0 y1 s + bov b x1 y0 y1 s + bov a b y0 c s + bov a b d y1 s.
+(* counting the names recorded for a module *)
+Lemma count_name_app n l1 l2 : count_name n (l1 ++ l2) = (count_name n l1 + count_name n l2)%nat.
+Proof. unfold count_name. rewrite filter_app, app_length. reflexivity. Qed.
+
+Lemma count_name_const {A} n (k : string) (l : list A) :
+  count_name n (map (fun _ => k) l) = if String.eqb n k then List.length l else 0%nat.
 Proof.
-  intros Hx Hy [Wx Wy] Hov a b c d.
-  destruct (clamp_range x0 x1 (xmin r) Hx) as [A0 A1]. destruct (clamp_range x0 x1 (xmax r) Hx) as [B0 B1].
-  destruct (clamp_range y0 y1 (ymin r) Hy) as [C0 C1]. destruct (clamp_range y0 y1 (ymax r) Hy) as [D0 D1].
-  pose proof (clamp_mono x0 x1 _ _ Wx) as AB. pose proof (clamp_mono y0 y1 _ _ Wy) as CD.
-  fold a in A0, A1, AB. fold b in B0, B1, AB. fold c in C0, C1, CD. fold d in D0, D1, CD.
-  unfold bov.
-  rewrite (olen_split x0 a x1 (xmin s) (xmax s) A0 A1).
-  rewrite (olen_split a b x1 (xmin s) (xmax s) AB B1).
-  rewrite (olen_split y0 c y1 (ymin s) (ymax s) C0 C1).
-  rewrite (olen_split c d y1 (ymin s) (ymax s) CD D1).
-  assert (Z : olen a b (xmin s) (xmax s) * olen c d (ymin s) (ymax s) = 0).
-  { rewrite ov_prod in Hov. apply mul_zero_cases in Hov. destruct Hov as [H|H].
-    - unfold a, b. rewrite (olen_sub_zero x0 x1 _ _ _ _ Hx Wx H). ring.
-    - unfold c, d. rewrite (olen_sub_zero y0 y1 _ _ _ _ Hy Wy H). ring. }
-  revert Z.
-  generalize (olen x0 a (xmin s) (xmax s)) (olen a b (xmin s) (xmax s)) (olen b x1 (xmin s) (xmax s))
-             (olen y0 c (ymin s) (ymax s)) (olen c d (ymin s) (ymax s)) (olen d y1 (ymin s) (ymax s)).
-  intros A1' A2 A3 B1' B2 B3 Z.
-  transitivity (A1' * (B1' + (B2 + B3)) + A3 * (B1' + (B2 + B3)) + A2 * B1' + A2 * B3 + A2 * B2); [ring|].
-  rewrite Z. ring.
+  unfold count_name. induction l as [|a l IH]; cbn [map filter]; [destruct (String.eqb n k); reflexivity|].
+  destruct (String.eqb n k) eqn:E; cbn [List.length]; rewrite IH; reflexivity.
 Qed.
 
-Lemma box_cover rs : pairwise_no_ov rs -> Forall wwf rs ->
-  forall x0 x1 y0 y1, x0 <= x1 -> y0 <= y1 ->
-  Qcsum (map (bov x0 x1 y0 y1) rs) <= (x1 - x0) * (y1 - y0).
+Lemma NoDup_map_inj {A B} (f : A -> B) l a b :
+  NoDup (map f l) -> In a l -> In b l -> f a = f b -> a = b.
 Proof.
-  induction rs as [|r rs IH]; intros Hp Hw x0 x1 y0 y1 Hx Hy.
-  - cbn [map Qcsum]. qnra.
-  - destruct Hp as [Hr Hp]. inversion Hw as [|? ? Wr Wrs]; subst.
-    specialize (IH Hp Wrs).
-    set (a := clamp x0 x1 (xmin r)). set (b := clamp x0 x1 (xmax r)).
-    set (c := clamp y0 y1 (ymin r)). set (d := clamp y0 y1 (ymax r)).
-    destruct Wr as [Wx Wy].
-    destruct (clamp_range x0 x1 (xmin r) Hx) as [A0 A1]. destruct (clamp_range x0 x1 (xmax r) Hx) as [B0 B1].
-    destruct (clamp_range y0 y1 (ymin r) Hy) as [C0 C1]. destruct (clamp_range y0 y1 (ymax r) Hy) as [D0 D1].
-    pose proof (clamp_mono x0 x1 _ _ Wx) as AB. pose proof (clamp_mono y0 y1 _ _ Wy) as CD.
-    fold a in A0, A1, AB. fold b in B0, B1, AB. fold c in C0, C1, CD. fold d in D0, D1, CD.
-    cbn [map Qcsum].
-    assert (E1 : bov x0 x1 y0 y1 r = (b - a) * (d - c)).
-    { unfold bov. rewrite (olen_mid x0 x1 _ _ Hx Wx), (olen_mid y0 y1 _ _ Hy Wy). reflexivity. }
-    assert (E2 : Qcsum (map (bov x0 x1 y0 y1) rs) =
-                 Qcsum (map (bov x0 a y0 y1) rs) + Qcsum (map (bov b x1 y0 y1) rs) +
-                 Qcsum (map (bov a b y0 c) rs) + Qcsum (map (bov a b d y1) rs)).
-    { rewrite <- !Qcsum_map_plus. apply Qcsum_map_ext. intros s Hs.
-      rewrite Forall_forall in Hr.
-      apply (bov_split x0 x1 y0 y1 r s Hx Hy (conj Wx Wy) (Hr s Hs)). }
-    pose proof (IH x0 a y0 y1 A0 Hy) as I1. pose proof (IH b x1 y0 y1 B1 Hy) as I2.
-    pose proof (IH a b y0 c AB C0) as I3. pose proof (IH a b d y1 AB D1) as I4.
-    rewrite E1, E2. revert I1 I2 I3 I4.
-    generalize (Qcsum (map (bov x0 a y0 y1) rs)) (Qcsum (map (bov b x1 y0 y1) rs))
-               (Qcsum (map (bov a b y0 c) rs)) (Qcsum (map (bov a b d y1) rs)).
-    clearbody a b c d. clear - a. intros S1 S2 S3 S4 I1 I2 I3 I4. qnra.
+  induction l as [|x l IH]; cbn [map]; intros Hn Ha Hb E; [destruct Ha|].
+  inversion Hn as [|? ? Hx Hn']; subst.
+  destruct Ha as [->|Ha], Hb as [->|Hb]; auto.
+  - exfalso. apply Hx. rewrite E. apply in_map. exact Hb.
+  - exfalso. apply Hx. rewrite <- E. apply in_map. exact Ha.
 Qed.
 
-Theorem covered_le_area c rs : wf c -> pairwise_no_ov rs -> Forall wf rs -> covered c rs <= area c.
+Lemma count_name_absent n (l : list nmod) : ~ In n (map mname l) ->
+  count_name n (flat_map (fun m' => map (fun _ => mname m') (mrects m')) l) = 0%nat.
 Proof.
-  intros Hc Hp Hw. unfold covered.
-  rewrite (Qcsum_map_ext (area_overlap c) (bov (xmin c) (xmax c) (ymin c) (ymax c))).
-  2:{ intros s _. apply ov_prod. }
-  destruct (wf_wwf c Hc) as [Wx Wy].
-  assert (Hw' : Forall wwf rs) by (eapply Forall_impl; [|exact Hw]; apply wf_wwf).
-  pose proof (box_cover rs Hp Hw' _ _ _ _ Wx Wy) as B.
-  revert B. generalize (Qcsum (map (bov (xmin c) (xmax c) (ymin c) (ymax c)) rs)). intros S B.
-  assert (E : (xmax c - xmin c) * (ymax c - ymin c) = area c) by (runfold; qnra).
-  rewrite E in B. exact B.
+  induction l as [|x l IH]; cbn [map flat_map]; intro H; [reflexivity|].
+  rewrite count_name_app, count_name_const, IH by (intro; apply H; right; assumption).
+  destruct (String.eqb n (mname x)) eqn:E; [|reflexivity].
+  apply String.eqb_eq in E. exfalso. apply H. left. symmetry. exact E.
 Qed.
+
+Lemma count_name_fixed (l : list nmod) m : NoDup (map mname l) -> In m l ->
+  count_name (mname m) (flat_map (fun m' => map (fun _ => mname m') (mrects m')) l) = List.length (mrects m).
+Proof.
+  induction l as [|x l IH]; cbn [map flat_map]; intros Hn Hin; [destruct Hin|].
+  inversion Hn as [|? ? Hx Hn']; subst. rewrite count_name_app, count_name_const.
+  destruct Hin as [->|Hin].
+  - rewrite String.eqb_refl, count_name_absent by exact Hx. apply Nat.add_0_r.
+  - destruct (String.eqb (mname m) (mname x)) eqn:E.
+    + apply String.eqb_eq in E. exfalso. apply Hx. rewrite <- E. apply in_map. exact Hin.
+    + rewrite (IH Hn' Hin). reflexivity.
+Qed.
+
+Lemma NoDup_map_filter {A B} (f : A -> B) (p : A -> bool) l : NoDup (map f l) -> NoDup (map f (filter p l)).
+Proof.
+  induction l as [|x l IH]; cbn [map filter]; intro H; [constructor|].
+  inversion H as [|? ? Hx Hn]; subst. destruct (p x); cbn [map]; [|auto].
+  constructor; [|auto]. intro Hin. apply Hx. apply in_map_iff in Hin. destruct Hin as (y & E & Hy).
+  apply filter_In in Hy. rewrite <- E. apply in_map. tauto.
+Qed.
+
+(* a function on the elements of a nested list that depends on the position of the block *)
+Lemma nested_flat_map {A B C} (g : A -> list B) (f : B -> list C) (h : A -> B -> list C) full :
+  (forall pre m post, full = pre ++ m :: post -> forall c, In c (g m) -> f c = h m c) ->
+  forall l pre0, full = pre0 ++ l ->
+  flat_map f (flat_map g l) = flat_map (fun m => flat_map (h m) (g m)) l.
+Proof.
+  intro H. induction l as [|m l IH]; intros pre0 E; [reflexivity|]. cbn [flat_map].
+  rewrite flat_map_app. f_equal.
+  - specialize (H pre0 m l E). revert H. generalize (g m). intro gl.
+    induction gl as [|c gl IHg]; intro H; [reflexivity|]. cbn [flat_map].
+    rewrite (H c (or_introl eq_refl)), IHg; [reflexivity|]. intros c' Hc'. apply H. right. exact Hc'.
+  - apply (IH (pre0 ++ [m])). rewrite <- app_assoc. exact E.
+Qed.
+
+Lemma filter_none_in {A} (p : A -> bool) l : (forall x, In x l -> p x = false) -> filter p l = [].
+Proof.
+  induction l as [|a l IH]; intro H; [reflexivity|]. cbn [filter].
+  rewrite (H a (or_introl eq_refl)). apply IH. intros x Hx. apply H. right. exact Hx.
+Qed.
+
+Lemma flat_map_nil {A B} (f : A -> list B) l : (forall x, In x l -> f x = []) -> flat_map f l = [].
+Proof.
+  induction l as [|a l IH]; intro H; [reflexivity|]. cbn [flat_map].
+  rewrite (H a (or_introl eq_refl)). apply IH. intros x Hx. apply H. right. exact Hx.
+Qed.
+
+Lemma flat_map_map_c {A B C} (g : A -> B) (f : B -> list C) l : flat_map f (map g l) = flat_map (fun x => f (g x)) l.
+Proof. induction l as [|a l IH]; cbn [map flat_map]; [reflexivity|]. rewrite IH. reflexivity. Qed.
+
+Lemma flat_map_singleton {A B} (f : A -> B) l : flat_map (fun x => [f x]) l = map f l.
+Proof. induction l as [|a l IH]; cbn [flat_map map]; [reflexivity|]. rewrite IH. reflexivity. Qed.
+
+(* ------------------------------------------------------------------ *)
+(* the cells of a die and the fixed modules of its netlist              *)
+(* ------------------------------------------------------------------ *)
+Section Die.
+  Variable R : list Rect.            (* refinable regions *)
+  Variable ms : list nmod.           (* modules, every one with rectangles *)
+  Let fms := filter mfixed ms.
+  Let F := flat_map mrects fms.
+  Hypothesis HW : Forall wf (R ++ F).
+  Hypothesis HP : pairwise_no_ov (R ++ F).
+  Hypothesis HR : Forall (fun r => fixed r = false) R.
+  Hypothesis HN : NoDup (map mname ms).
+
+  Lemma zero_ratio c rs : (forall r, In r rs -> area_overlap c r = 0) -> cov_ratio c rs = 0.
+  Proof. intro H. rewrite cov_ratio_eq, (covered_zero c rs H). unfold Qcdiv. ring. Qed.
+
+  Lemma ratio_ref c m : In c R -> In m fms -> cov_ratio c (mrects m) = 0.
+  Proof.
+    intros Hc Hm. apply zero_ratio. intros r Hr.
+    destruct (pairwise_app R F HP) as (_ & _ & H). apply H; [exact Hc|].
+    unfold F. apply in_flat_map. exists m. split; assumption.
+  Qed.
+
+  Lemma ratio_fixed pre m post c : fms = pre ++ m :: post -> In c (mrects m) ->
+    cov_ratio c (mrects m) = 1 /\ forall m', In m' (pre ++ post) -> cov_ratio c (mrects m') = 0.
+  Proof.
+    intros E Hc.
+    destruct (pairwise_app R F HP) as (_ & PF & _).
+    apply Forall_app in HW. destruct HW as [_ WF].
+    unfold F in PF, WF. rewrite E, flat_map_app in PF, WF. cbn [flat_map] in PF, WF.
+    destruct (pairwise_app _ _ PF) as (_ & PBC & PA).
+    destruct (pairwise_app _ _ PBC) as (PB & _ & PC).
+    apply Forall_app in WF. destruct WF as [_ WBC]. apply Forall_app in WBC. destruct WBC as [WB _].
+    split.
+    - rewrite cov_ratio_eq, (covered_self (mrects m) c PB WB Hc).
+      assert (Wc : wf c) by (rewrite Forall_forall in WB; apply WB; exact Hc).
+      pose proof (pos_neq0 _ (wf_area_pos c Wc)). field. assumption.
+    - intros m' Hm'. apply zero_ratio. intros r Hr. apply in_app_or in Hm'. destruct Hm' as [Hm'|Hm'].
+      + rewrite ov_sym. apply PA; [apply in_flat_map; exists m'; split; assumption|].
+        apply in_or_app. left. exact Hc.
+      + apply PC; [exact Hc|]. apply in_flat_map. exists m'. split; assumption.
+  Qed.
+
+  Lemma fixed_cell_owner c : In c F -> exists pre m post, fms = pre ++ m :: post /\ In c (mrects m).
+  Proof.
+    intro H. unfold F in H. apply in_flat_map in H. destruct H as (m & Hm & Hc).
+    destruct (in_split m fms Hm) as (pre & post & E). exists pre, m, post. split; assumption.
+  Qed.
+
+  Lemma ratios_binary c m : In c (R ++ F) -> In m fms ->
+    cov_ratio c (mrects m) = 0 \/ cov_ratio c (mrects m) = 1.
+  Proof.
+    intros Hc Hm. apply in_app_or in Hc. destruct Hc as [Hc|Hc].
+    - left. apply ratio_ref; assumption.
+    - destruct (fixed_cell_owner c Hc) as (pre & m0 & post & E & Hc0).
+      destruct (ratio_fixed pre m0 post c E Hc0) as [H1 H0].
+      rewrite E in Hm. apply in_app_or in Hm. destruct Hm as [Hm|[<-|Hm]].
+      + left. apply H0. apply in_or_app. left. exact Hm.
+      + right. exact H1.
+      + left. apply H0. apply in_or_app. right. exact Hm.
+  Qed.
+
+  Lemma owners_ref c : In c R -> owners fms c = [].
+  Proof.
+    intro Hc. unfold owners. apply filter_none_in. intros m Hm. unfold own.
+    rewrite (ratio_ref c m Hc Hm). qb2p. qlra.
+  Qed.
+
+  Lemma owners_fixed pre m post c : fms = pre ++ m :: post -> In c (mrects m) -> owners fms c = [m].
+  Proof.
+    intros E Hc. destruct (ratio_fixed pre m post c E Hc) as [H1 H0].
+    unfold owners. rewrite E, filter_app. cbn [filter]. unfold own at 2. rewrite H1.
+    assert (Qceqb 1 1 = true) as -> by (qb2p; reflexivity).
+    rewrite !filter_none_in; [reflexivity| |].
+    - intros x Hx. unfold own. rewrite (H0 x) by (apply in_or_app; right; exact Hx). qb2p. qlra.
+    - intros x Hx. unfold own. rewrite (H0 x) by (apply in_or_app; left; exact Hx). qb2p. qlra.
+  Qed.
+
+  Definition mk0 (r : Rect) : cell := mkCell r [] 0%nat.
+  Definition mkf (r : Rect) : cell := mkCell (set_fixed r) [] 0%nat.
+  Definition fixed_pairs : list (Rect * string) :=
+    flat_map (fun m => map (fun r => (set_fixed r, mname m)) (mrects m)) fms.
+
+  Lemma marks : map (mark fms) (init_cells R F) = map mk0 R ++ map mkf F.
+  Proof.
+    unfold init_cells. fold mk0. rewrite !map_app, !map_map. f_equal.
+    - apply map_ext_in. intros c Hc. unfold mark, mk0. cbn [crect calloc cdepth].
+      rewrite (owners_ref c Hc). reflexivity.
+    - apply map_ext_in. intros c Hc. destruct (fixed_cell_owner c Hc) as (pre & m & post & E & Hm).
+      unfold mark, mk0, mkf. cbn [crect calloc cdepth]. rewrite (owners_fixed pre m post c E Hm). reflexivity.
+  Qed.
+
+  Lemma pairs_fixed pre m post c : fms = pre ++ m :: post -> In c (mrects m) ->
+    pairs fms (mk0 c) = [(set_fixed c, mname m)].
+  Proof.
+    intros E Hc. unfold pairs, mark, mk0. cbn [crect calloc cdepth].
+    rewrite (owners_fixed pre m post c E Hc). reflexivity.
+  Qed.
+
+  Lemma all_pairs : flat_map (pairs fms) (init_cells R F) = fixed_pairs.
+  Proof.
+    unfold init_cells. fold mk0. rewrite map_app, flat_map_app.
+    assert (E1 : flat_map (pairs fms) (map mk0 R) = []).
+    { rewrite flat_map_map_c. apply flat_map_nil. intros c Hc.
+      unfold pairs, mk0. cbn [crect]. rewrite (owners_ref c Hc). reflexivity. }
+    rewrite E1. cbn [app]. rewrite flat_map_map_c. unfold F, fixed_pairs.
+    rewrite (nested_flat_map mrects (fun c => pairs fms (mk0 c))
+               (fun m c => [(set_fixed c, mname m)]) fms
+               (fun pre m post E c Hc => pairs_fixed pre m post c E Hc) fms [] eq_refl).
+    apply flat_map_ext. intro m. apply flat_map_singleton.
+  Qed.
+
+  Lemma detect_die feps : 0 < feps -> feps < 1 ->
+    detect feps (init_cells R F) fms = Some (map mk0 R ++ map mkf F, fixed_pairs).
+  Proof.
+    intros H0 H1. rewrite (detect_spec feps _ fms H0 H1).
+    - rewrite marks, all_pairs. reflexivity.
+    - intros c m Hc Hm. unfold init_cells in Hc. apply in_map_iff in Hc. destruct Hc as (r & <- & Hr).
+      cbn [crect]. apply ratios_binary; assumption.
+  Qed.
+
+  Lemma counts_die : counts_ok fms fixed_pairs = true.
+  Proof.
+    unfold counts_ok. apply forallb_forall. intros m Hm. apply Nat.eqb_eq.
+    assert (E : map snd fixed_pairs = flat_map (fun m' => map (fun _ => mname m') (mrects m')) fms).
+    { unfold fixed_pairs. generalize fms. intro l. induction l as [|x l IH]; [reflexivity|].
+      cbn [flat_map]. rewrite map_app, IH, map_map. reflexivity. }
+    rewrite E. symmetry. apply count_name_fixed; [|exact Hm].
+    unfold fms. apply NoDup_map_filter. exact HN.
+  Qed.
+
+  Lemma rest_die inc0 ms' :
+    rest_alloc inc0 ms' (map mk0 R ++ map mkf F) = map (fun r => mkCell r (alloc_of inc0 ms' r) 0%nat) R.
+  Proof.
+    unfold rest_alloc. rewrite flat_map_app, !flat_map_map_c.
+    assert (E2 : flat_map (fun x => if fixed (crect (mkf x)) then []
+                   else [mkCell (crect (mkf x)) (alloc_of inc0 ms' (crect (mkf x))) (cdepth (mkf x))]) F = []).
+    { apply flat_map_nil. intros c _. reflexivity. }
+    rewrite E2, app_nil_r. rewrite <- flat_map_singleton.
+    clear HW HP. induction R as [|c l IH]; [reflexivity|]. inversion HR; subst. cbn [flat_map].
+    unfold mk0 at 1 2 3. cbn [crect cdepth]. rewrite H1. cbn [app]. f_equal. apply IH. assumption.
+  Qed.
+
+  Definition out_cells (inc0 : bool) : list cell :=
+    flat_map (fun m => map (fun r => mkCell (set_fixed r) [(mname m, 1)] 0%nat) (mrects m)) fms ++
+    map (fun r => mkCell r (alloc_of inc0 ms r) 0%nat) R.
+
+  Lemma prealloc_die : prealloc fixed_pairs =
+    flat_map (fun m => map (fun r => mkCell (set_fixed r) [(mname m, 1)] 0%nat) (mrects m)) fms.
+  Proof.
+    unfold prealloc, fixed_pairs. generalize fms. intro l. induction l as [|x l IH]; [reflexivity|].
+    cbn [flat_map]. rewrite map_app, IH, map_map. reflexivity.
+  Qed.
+End Die.
